@@ -461,6 +461,13 @@ fn exec(dbs: &Mutex<Dbs>, cmd: &Value) -> Result<Value, String> {
             db.cleanup_file_cache(Path::new(s(cmd, "path")?));
             Ok(json!({"ok": true}))
         }
+        // what the venv phase of the scan does for a module reached from a pytest11 entry point
+        "mark_plugin" => {
+            let db = get_db(&dbs.lock().unwrap(), cmd)?;
+            db.plugin_fixture_files
+                .insert(std::path::PathBuf::from(s(cmd, "path")?), ());
+            Ok(json!({"ok": true}))
+        }
         "raw" => {
             let db = get_db(&dbs.lock().unwrap(), cmd)?;
             Ok(raw_maps(&db))
